@@ -164,7 +164,7 @@ Proof.
     + intros p i v' Hn. rewrite app_length in Hn. simpl in Hn.
       apply (f_cell _ _ F (S p) i v'). rewrite <- Hn. f_equal. lia.
     + split; [exists []; rewrite app_nil_r; reflexivity|exists [h]; reflexivity].
-    + intros _. unfold recv_ok. cbn [tick fpc idx got]. exists h, v. split; auto. split.
+    + intros _. unfold recv_ok. cbn [tick fpc idx got g_in g_out cells]. exists h, v. split; auto. split.
       * rewrite nth_error_app2 by lia. rewrite Nat.sub_diag. reflexivity.
       * split; auto. specialize (Hrf H). unfold recv_ok in Hrf.
         destruct (tick f).
@@ -224,7 +224,7 @@ Proof.
         -- destruct n; discriminate.
     + split; [exists [(idx f, v)]; reflexivity|exists []; rewrite app_nil_r; reflexivity].
     + intro K. congruence.
-    + intros v' K. assert (v' = v) by congruence. subst v'. unfold send_ok. cbn [tick fpc idx]. split; auto.
+    + intros v' K. assert (v' = v) by congruence. subst v'. unfold send_ok. cbn [tick fpc idx g_in]. split; auto.
       rewrite nth_error_app2 by lia. rewrite Nat.sub_diag. reflexivity.
     + intros t0 Ht. cbn [tick] in Ht. inversion Ht; subst t0. right.
       intros j g Hj Hg Hkk Tg.
